@@ -153,6 +153,41 @@ def fit (c : Csr Rat) (values : List Int) (a : PropArgs) (fuel : Nat) : Option (
   let cw := withWeights c a.weighted
   propLoop (fun l => voteUpdate cw l index) (fun l => config l index) fuel a.nIter 0 [] labels0
 
+/-! ### the repaired kernel with checked accesses (`none` = a read or write outside a buffer) -/
+namespace Checked
+
+/-- first inner loop with every array read checked: `indptr[i]`, `indptr[i+1]`, `indices[j]`, `labels[jj]`, `data[j]` -/
+def neigh? (c : Csr Rat) (labels : List Int) (i : Nat) : Option (List (Int × Rat)) := do
+  let lo ← c.indptr[i]?
+  let hi ← c.indptr[i+1]?
+  (List.range (hi - lo)).mapM fun d => do
+    let jj ← c.indices[d + lo]?
+    let l ← labels[jj]?
+    let w ← c.data[d + lo]?
+    pure (l, w)
+
+/-- `votes[label] += …` needs a cell for the label -/
+def accStep? (a : Acc) (p : Int × Rat) : Option Acc :=
+  if 0 ≤ p.1 then (if p.1.toNat < a.votes.length then some (accStep a p) else none) else some a
+
+/-- `votes[label]` is read and reset -/
+def selStep? (s : Sel) (l : Int) : Option Sel :=
+  if 0 ≤ l ∧ l.toNat < s.votes.length then some (selStep s l) else none
+
+def voteNode? (c : Csr Rat) (st : St) (i : Nat) : Option St := do
+  let ps ← neigh? c st.labels i
+  let a ← ps.foldlM accStep? ⟨[], st.votes⟩
+  if i < st.labels.length then
+    let s ← a.uniq.foldlM selStep? ⟨st.labels.getD i (-1), -1, a.votes⟩
+    pure ⟨st.labels.set i s.label, s.votes⟩
+  else none
+
+/-- `vote_update` with every access checked -/
+def voteUpdate? (c : Csr Rat) (labels : List Int) (index : List Nat) : Option (List Int) :=
+  (index.foldlM (voteNode? c) ⟨labels, List.replicate (nLabels labels) 0⟩).map (·.labels)
+
+end Checked
+
 /-! ### the kernel before the repair of F2 (checked accesses) -/
 namespace Pinned
 
